@@ -781,7 +781,14 @@ def _vectorize_func(func):
 
     # What should work once that Jax backend is fully supported
     signature = inspect.signature(func)
-    func_vec = numpy.vectorize(func)
+    # Fix the output type to the declared return type. Otherwise, numpy infers it from
+    # the result for the first row, which truncates all later rows if, e.g., the first
+    # row returns an integer literal in a float-valued function.
+    return_type = getattr(func, "__annotations__", {}).get("return")
+    if return_type in (bool, int, float):
+        func_vec = numpy.vectorize(func, otypes=[return_type])
+    else:
+        func_vec = numpy.vectorize(func)
 
     @functools.wraps(func)
     def wrapper_vectorize_func(*args, **kwargs):
